@@ -621,7 +621,7 @@ func (a *boundsAn) substitute(f lin, call *ssa.Call, g *ssa.Function) (lin, bool
 		case *ssa.UnOp:
 			root, sels := accessPath(x)
 			prm, ok := root.(*ssa.Parameter)
-			if !ok || s.kind != 'l' {
+			if !ok {
 				return lin{}, false
 			}
 			idx := -1
@@ -643,9 +643,16 @@ func (a *boundsAn) substitute(f lin, call *ssa.Call, g *ssa.Function) (lin, bool
 			}
 			cur := a.fieldValueBefore(call, ap, sels[len(sels)-1].Field)
 			if cur == nil {
+				cur = a.canonicalFieldLoad(ap, sels[len(sels)-1].Field)
+			}
+			if cur == nil {
 				return lin{}, false
 			}
-			repl = a.lenOf(cur)
+			if s.kind == 'l' {
+				repl = a.lenOf(cur)
+			} else {
+				repl = a.formOf(cur)
+			}
 		default:
 			return lin{}, false
 		}
@@ -850,7 +857,7 @@ func onlyParamSyms(f lin, g *ssa.Function) bool {
 			}
 		case *ssa.UnOp:
 			// a field path rooted at a parameter (s.frames): re-rooted at the call site
-			if x.Op != token.MUL || s.kind != 'l' {
+			if x.Op != token.MUL {
 				return false
 			}
 			root, sels := accessPath(x)
@@ -1047,6 +1054,21 @@ func (e *boundsEngine) postconditions(a *boundsAn, g *ssa.Function, s *fnSummary
 			case resKey:
 			case *ssa.Parameter:
 				if x.Parent() != g {
+					return true
+				}
+			case *ssa.UnOp:
+				// field path rooted at a parameter, not written by g: same value before and after the call
+				root, sels := accessPath(x)
+				p, ok := root.(*ssa.Parameter)
+				if !ok || p.Parent() != g || len(sels) == 0 || x.Op != token.MUL {
+					return true
+				}
+				for _, sl := range sels {
+					if sl.Field == nil {
+						return true
+					}
+				}
+				if e.mayWriteField(g, sels[len(sels)-1].Field) {
 					return true
 				}
 			default:
@@ -1548,6 +1570,30 @@ func (a *boundsAn) fieldValueBefore(at ssa.Instruction, ap string, f *types.Var)
 		}
 		b = b.Preds[0]
 		idx = len(b.Instrs)
+	}
+	return nil
+}
+
+// canonicalFieldLoad: if the analysed function never stores to field f, any load
+// with access path ap stands for the field's value throughout the function.
+func (a *boundsAn) canonicalFieldLoad(ap string, f *types.Var) ssa.Value {
+	for _, b := range a.fn.Blocks {
+		for _, ins := range b.Instrs {
+			if st, ok := ins.(*ssa.Store); ok {
+				if fa, ok := st.Addr.(*ssa.FieldAddr); ok && fieldOf(fa.X.Type(), fa.Field) == f {
+					return nil
+				}
+			}
+		}
+	}
+	for _, b := range a.fn.Blocks {
+		for _, ins := range b.Instrs {
+			if u, ok := ins.(*ssa.UnOp); ok && u.Op == token.MUL {
+				if _, ok := u.X.(*ssa.FieldAddr); ok && apString(u) == ap {
+					return canon(u)
+				}
+			}
+		}
 	}
 	return nil
 }
